@@ -202,6 +202,8 @@ func initDesignateNotaryRoleAsSignerTick(ctx, prm)
           xcalls("wallet.Account.SignHashable")[old(xcalls("wallet.Account.SignHashable")).len] == ev_wallet_Account_SignHashable(n, t)
           && xcalls("sharedTransactionData.unshiftChecksum")[old(xcalls("sharedTransactionData.unshiftChecksum")).len] == ev_sharedTransactionData_unshiftChecksum(x, d)
           && t.Nonce == x.nonce && t.ValidUntilBlock == x.validUntilBlock && len(t.Signers) > 0 && t.Signers[0].Account == x.sender
+          // ... and these parameters were not yet expired at the height the member read in this tick
+          && asint(cres("blockchainMonitor.currentHeight", old(xcalls("blockchainMonitor.currentHeight")).len)) <= x.validUntilBlock
   // at most one NNS transaction per tick; a record of the member's own signature domain that exists (the second lookup
   // of the tick succeeded) is replaced through setRecord at index 0, never doubled through addRecord
   ensures [C13] xcalls("actor.Actor.SendCall").len <= old(xcalls("actor.Actor.SendCall")).len + 1
